@@ -4,6 +4,7 @@ package prober
 import (
 	"context"
 	"fmt"
+	"math"
 	"strconv"
 	"strings"
 	"time"
@@ -17,6 +18,9 @@ import (
 
 const gfeT4T7prefix = "gfet4t7; dur="
 const serverTimingKey = "server-timing"
+
+// maxDurationMillis is the largest number of milliseconds a time.Duration can hold.
+const maxDurationMillis = int64(math.MaxInt64 / time.Millisecond)
 
 var (
 	expDistribution = []float64{1, 2, 4, 8, 16, 32, 64, 128, 256, 512, 1024, 2048, 4096, 8192, 16384, 32768, 65536, 131072, 262144, 524288}
@@ -68,6 +72,11 @@ func parseT4T7Latency(headers, trailers metadata.MD) (time.Duration, error) {
 		durationMillis, err := strconv.ParseInt(durationText, 10, 64)
 		if err != nil {
 			return 0, fmt.Errorf("failed to parse gfe latency: %v", err)
+		}
+		// time.Duration counts nanoseconds in an int64; a millisecond count
+		// beyond +-9223372036854 would silently wrap around below.
+		if durationMillis > maxDurationMillis || durationMillis < -maxDurationMillis {
+			return 0, fmt.Errorf("failed to parse gfe latency: %vms is out of range", durationMillis)
 		}
 		return time.Duration(durationMillis) * time.Millisecond, nil
 	}
